@@ -17,4 +17,11 @@ int  op_stripe(cfg_t c, int n, char **frags, uint64_t flen);
 void op_size(cfg_t c, uint64_t len);
 void op_create(int be, int k, int m, int hd, int w);
 void op_crc(const unsigned char *p, size_t n);
+/* direct property oracles on the implementation alone (no model line; cheap, so pattern spaces are
+   swept exhaustively): decode of the stripe without the fragments in `gone` / reconstruct of `dest`.
+   mode: 0 the set is tolerated — anything but the exact result is a failure;
+         1 beyond tolerance — an error is fine, success with other bytes is the failure.
+   Return 0 exact, 1 wrong bytes, <0 error code. */
+int  sweep_dec(stripe_t *s, uint64_t gone, int force, int shuffle_order, int mode, const char *prop);
+int  sweep_rec(stripe_t *s, uint64_t gone, int dest, int mode, const char *prop);
 #endif
